@@ -325,6 +325,12 @@ def main(argv):
                     continue
                 dis, total, compared = diff_outputs(d)
                 cov["disagreements_checked"] += compared
+                if total and sub.get("reference"):
+                    # the model of this sub is the specification itself (not a model of the code): a case on which the
+                    # implementation differs from it is a failing input of the property
+                    for c, i, m in dis[:50]:
+                        violations.append((sub["reference"], "%s: the implementation gives `%s`, the specification-derived reference gives `%s`"
+                                           % (sub["reference"], i[:300], m[:300]), c))
                 if total:
                     body = "".join("case: %s\nimpl:  %s\nmodel: %s\n\n" % x for x in dis[:10])
                     broken.append(("correspondence:" + sub["name"],
